@@ -240,3 +240,20 @@ pub fn build_recipe_checked(r: &str) -> Option<Vec<u8>> {
     }
     Some(build_recipe(r))
 }
+
+/// DENSE length sweep of highly repetitive inputs: every length 0..=max of an all-zero run, a
+/// period-2 and a period-3 run after a 30-byte ramp — every residue of the repeat length
+/// modulo the LZ10 (18) and LZ11 (4096) reference limits occurs, in particular k·4096+1 / +2.
+pub fn dense_runs(tier: Tier) -> Vec<LzInput> {
+    let max = match tier {
+        Tier::Quick => 8_300usize,
+        Tier::Thorough => 20_600,
+    };
+    let mut v = Vec::with_capacity(3 * (max + 1));
+    for n in 0..=max {
+        v.push(recipe_input(format!("zeros:{}", n)));
+        v.push(recipe_input(format!("period:2:65:{}", n)));
+        v.push(recipe_input(format!("ramp:30+period:3:0:{}", n)));
+    }
+    v
+}
